@@ -110,17 +110,21 @@ macro_rules! with_engine {
 
 /// (engine, runs in the quick tier, runs in the thorough tier)
 fn plan(prop: &str) -> Vec<(Eng, u64, u64)> {
-    // thorough budgets are sized for roughly 5-10 minutes per check on 16 idle cores
+    // Thorough runs are a different animal from quick ones: one in ten is a long run (hundreds of dates and
+    // operations), bursts reach 5 000 orders, a server may hold 1 100 backtests - a run costs 10 to 1 000 times
+    // a quick one (measured on this machine under load: e1-uist 20-200 runs/s, e1-jura 2-40 runs/s, e3 500/s,
+    // e2 250-700/s, e4 1 400/s, e5 1 200-2 000/s). Budgets are sized for 5-15 minutes per check; the wall
+    // clock cap (40 min per check) is only a safety net.
     match prop {
-        "C02" => vec![(Eng::E1U, 200_000, 1_500_000)],
-        "C18" => vec![(Eng::E1J, 200_000, 500_000)],
-        "C01" | "C03" => vec![(Eng::E1U, 90_000, 800_000), (Eng::E1J, 80_000, 300_000)],
-        "C07" => vec![(Eng::E1U, 90_000, 800_000), (Eng::E1J, 80_000, 300_000), (Eng::E5, 6_000, 150_000), (Eng::E5J, 4_000, 80_000)],
-        "C17" => vec![(Eng::E1U, 35_000, 30_000), (Eng::E1J, 25_000, 12_000)], // thorough: fewer but far larger runs (batches up to 5000)
-        "C04" | "C05" | "C06" | "C09" | "C10" | "C11" | "C12" => vec![(Eng::E3, 150_000, 1_000_000)],
-        "C20" => vec![(Eng::E2U, 70_000, 1_000_000), (Eng::E2J, 60_000, 400_000)],
-        "C16" => vec![(Eng::E4, 60_000, 1_000_000)],
-        "C08" => vec![(Eng::E1U, 30_000, 400_000), (Eng::E1J, 20_000, 150_000), (Eng::E2U, 15_000, 200_000), (Eng::E5, 12_000, 300_000), (Eng::E5J, 8_000, 150_000)],
+        "C02" => vec![(Eng::E1U, 200_000, 150_000)],
+        "C18" => vec![(Eng::E1J, 200_000, 25_000)],
+        "C01" | "C03" => vec![(Eng::E1U, 90_000, 60_000), (Eng::E1J, 80_000, 12_000)],
+        "C07" => vec![(Eng::E1U, 90_000, 60_000), (Eng::E1J, 80_000, 12_000), (Eng::E5, 6_000, 150_000), (Eng::E5J, 4_000, 80_000)],
+        "C17" => vec![(Eng::E1U, 35_000, 8_000), (Eng::E1J, 25_000, 1_200)], // thorough: fewer but far larger runs (batches up to 5000)
+        "C04" | "C05" | "C06" | "C09" | "C10" | "C11" | "C12" => vec![(Eng::E3, 150_000, 350_000)],
+        "C20" => vec![(Eng::E2U, 70_000, 350_000), (Eng::E2J, 60_000, 120_000)],
+        "C16" => vec![(Eng::E4, 60_000, 600_000)],
+        "C08" => vec![(Eng::E1U, 30_000, 6_000), (Eng::E1J, 20_000, 2_500), (Eng::E2U, 15_000, 100_000), (Eng::E5, 12_000, 250_000), (Eng::E5J, 8_000, 150_000)],
         _ => vec![],
     }
 }
